@@ -135,7 +135,10 @@ theorem PC_atom (R : ViewRel) (s : PState) (Q : QFs) (hI : Inv R s (fvOf Q)) (hP
         simpa using this
       have hmd : s.mdirty = false := by simpa using hg.1.1.1.1.1.1.1.2
       have hkd : s.kdir = true := hg.1.1.1.1.1.1.2
-      have hpe : s.pendU = [] := by simpa using hg.1.1.1.1.1.2
+      have hpe : ∀ x ∈ s.pendU, x.2 ∉ s.kins := by
+        intro x hx
+        have := List.all_eq_true.mp hg.1.1.1.1.1.2 x hx
+        simpa using this
       have := PC_kmset R s Q hI hC t' hg1 hst happ hmd hkd hpe
       simp only [Option.getD_some]
       exact this
